@@ -2,6 +2,8 @@ package mc
 
 import (
 	"bufio"
+	"sync/atomic"
+	"time"
 	"encoding/json"
 	"fmt"
 	"os"
@@ -42,9 +44,12 @@ func WorkerMain(args []string) int {
 	prop, name := args[0], args[1]
 	k, _ := strconv.Atoi(args[2])
 	n, _ := strconv.Atoi(args[3])
-	only := -1
+	only, from := -1, -1
 	if len(args) > 4 {
 		only, _ = strconv.Atoi(args[4])
+	}
+	if len(args) > 5 {
+		from, _ = strconv.Atoi(args[5])
 	}
 	s := ShardedRegistry[name]
 	if s == nil {
@@ -73,7 +78,7 @@ func WorkerMain(args []string) int {
 		if only >= 0 && i != only {
 			continue
 		}
-		if only < 0 && i%n != k {
+		if only < 0 && (i%n != k || i <= from) {
 			continue
 		}
 		emit(wireMsg{T: "case", I: i})
@@ -93,12 +98,16 @@ func (c *Ctx) RunSharded(name string) {
 	}
 	self, _ := os.Executable()
 	var mu sync.Mutex
-	crashed := map[int]string{}
-	runWorker := func(k, n, only int) (lastCase int, done bool, tail string) {
-		args := []string{"worker", "shard", c.Prop, name, strconv.Itoa(k), strconv.Itoa(n)}
-		if only >= 0 {
-			args = append(args, strconv.Itoa(only))
+	// a worker that makes no progress for hangLimit is killed: cases take well under a
+	// second, so this only fires when the code under test is wedged (deadlock, endless loop)
+	hangLimit := 60 * time.Second
+	if v := os.Getenv("VERIF_HANG_LIMIT_S"); v != "" {
+		if n, err := strconv.Atoi(v); err == nil {
+			hangLimit = time.Duration(n) * time.Second
 		}
+	}
+	runWorkerFromCase := func(k, n, only, from int) (lastCase int, done bool, tail string) {
+		args := []string{"worker", "shard", c.Prop, name, strconv.Itoa(k), strconv.Itoa(n), strconv.Itoa(only), strconv.Itoa(from)}
 		cmd := exec.Command(self, args...)
 		cmd.Env = append(os.Environ(), "VERIF_TIER_INTERNAL="+c.Tier)
 		stdout, _ := cmd.StdoutPipe()
@@ -109,11 +118,31 @@ func (c *Ctx) RunSharded(name string) {
 			return -1, true, ""
 		}
 		lastCase = -1
+		var lastProgress int64 = time.Now().UnixNano()
+		var hung int32
+		stopWatch := make(chan struct{})
+		go func() {
+			t := time.NewTicker(time.Second)
+			defer t.Stop()
+			for {
+				select {
+				case <-stopWatch:
+					return
+				case <-t.C:
+					if time.Since(time.Unix(0, atomic.LoadInt64(&lastProgress))) > hangLimit {
+						atomic.StoreInt32(&hung, 1)
+						_ = cmd.Process.Kill()
+						return
+					}
+				}
+			}
+		}()
 		sc := bufio.NewScanner(stdout)
 		sc.Buffer(make([]byte, 1<<20), 1<<26)
 		var stray []string
 		for sc.Scan() {
 			line := sc.Text()
+			atomic.StoreInt64(&lastProgress, time.Now().UnixNano())
 			var m wireMsg
 			if !strings.HasPrefix(line, "{") || json.Unmarshal([]byte(line), &m) != nil {
 				if len(stray) < 40 {
@@ -142,49 +171,29 @@ func (c *Ctx) RunSharded(name string) {
 			}
 		}
 		_ = cmd.Wait()
+		close(stopWatch)
 		tail = errBuf.String()
+		if atomic.LoadInt32(&hung) != 0 {
+			tail = fmt.Sprintf("panic: HANG: no progress for %s (worker killed)\n", hangLimit) + tail
+		}
 		if len(tail) > 3000 {
 			tail = tail[:1500] + "\n...\n" + tail[len(tail)-1500:]
 		}
 		return lastCase, done, strings.Join(stray, "\n") + tail
 	}
-	var wg sync.WaitGroup
-	for k := 0; k < nw; k++ {
-		wg.Add(1)
-		go func(k int) {
-			defer wg.Done()
-			// a shard whose worker dies is resumed after the fatal case
-			skipBelow := -1
-			for {
-				last, done, tail := runWorkerFrom(runWorker, k, nw, skipBelow)
-				if done {
-					return
-				}
-				if last < 0 {
-					c.HarnessError(fmt.Sprintf("%s: worker %d died before its first case: %s", name, k, tail))
-					return
-				}
-				mu.Lock()
-				crashed[last] = tail
-				mu.Unlock()
-				skipBelow = last
-				_ = os.Setenv("VERIF_DUMMY", "")
-				// resume: remaining cases of this shard, one worker per case to stay simple
-				for i := last + nw; i < total; i += nw {
-					l2, d2, t2 := runWorker(0, 1, i)
-					if !d2 && l2 == i {
-						mu.Lock()
-						crashed[i] = t2
-						mu.Unlock()
-					}
-				}
-				return
-			}
-		}(k)
-	}
-	wg.Wait()
-	// confirm each crash by re-running the case alone
-	for i, tail := range crashed {
+	runWorker := func(k, n, only int) (int, bool, string) { return runWorkerFromCase(k, n, only, -1) }
+	seenCls := map[string]bool{}
+	// onDeath confirms a worker death by re-running the case alone and reports it at once
+	// (so that the VIOLATION line appears even if the rest of the run is cut short).
+	onDeath := func(i int, tail string) {
+		cls := crashClass(tail)
+		mu.Lock()
+		if seenCls[cls] {
+			mu.Unlock()
+			return
+		}
+		seenCls[cls] = true // optimistic: concurrent deaths of the same class are confirmed once
+		mu.Unlock()
 		confirmed := 0
 		for r := 0; r < 3; r++ {
 			_, done, _ := runWorker(0, 1, i)
@@ -197,18 +206,44 @@ func (c *Ctx) RunSharded(name string) {
 			desc = s.Describe(i)
 		}
 		if confirmed == 3 {
-			c.Report(c.Prop+"|process-crash|"+crashClass(tail), fmt.Sprintf("the process executing case %s died (confirmed 3/3 when re-run alone): %s", desc, firstPanicLine(tail)),
+			c.Report(c.Prop+"|process-crash|"+cls, fmt.Sprintf("the process executing case %s died or wedged (confirmed 3/3 when re-run alone): %s", desc, firstPanicLine(tail)),
 				map[string]interface{}{"engine": "sharded." + name, "case": i, "desc": desc})
 		} else {
+			mu.Lock()
+			seenCls[cls] = false
+			mu.Unlock()
 			c.HarnessError(fmt.Sprintf("%s: worker death on case %s not reproducible (%d/3): %s", name, desc, confirmed, firstPanicLine(tail)))
 		}
 	}
+	var wg sync.WaitGroup
+	for k := 0; k < nw; k++ {
+		wg.Add(1)
+		go func(k int) {
+			defer wg.Done()
+			// a shard whose worker dies is resumed after the fatal case (at most 3 deaths per shard)
+			from := -1
+			for deaths := 0; ; deaths++ {
+				last, done, tail := runWorkerFromCase(k, nw, -1, from)
+				if done {
+					return
+				}
+				if last < 0 || last <= from {
+					c.HarnessError(fmt.Sprintf("%s: worker %d died before running a case: %s", name, k, firstPanicLine(tail)))
+					return
+				}
+				onDeath(last, tail)
+				from = last
+				if deaths >= 2 {
+					c.Cap(fmt.Sprintf("%s: shard %d stopped after 3 worker deaths (remaining cases of the shard not run)", name, k))
+					return
+				}
+			}
+		}(k)
+	}
+	wg.Wait()
 	c.Set(name+".cases", total)
 }
 
-func runWorkerFrom(f func(k, n, only int) (int, bool, string), k, n, _ int) (int, bool, string) {
-	return f(k, n, -1)
-}
 
 func firstPanicLine(s string) string {
 	for _, l := range strings.Split(s, "\n") {
@@ -224,6 +259,9 @@ func firstPanicLine(s string) string {
 
 func crashClass(s string) string {
 	l := firstPanicLine(s)
+	if strings.Contains(l, "HANG") {
+		return "hang"
+	}
 	for _, k := range []string{"nil pointer dereference", "index out of range", "slice bounds", "out-order", "unmarshal", "concurrent map"} {
 		if strings.Contains(l, k) || strings.Contains(s, k) {
 			return strings.ReplaceAll(k, " ", "-")
